@@ -387,8 +387,12 @@ SysOfScalar(el) ==
     [] el.ek = "Quantity" -> [t |-> "q", val |-> DecOfText(el.s), unit |-> el.code]
 ScalarId(el) == el.ek \o ":" \o (IF el.b THEN "t" ELSE "f") \o ToString(el.i) \o ":" \o CpsId(el.s) \o ":" \o CpsId(el.code)
 
-ProtoCases ==
-  {[kind |-> "proto-precision", id |-> "Pscalar:" \o ScalarId(el), sub |-> "fromscalar", el |-> el] : el \in ScalarElements}
+(* seeded DateTime literals with an offset (any hour, minutes 0/15/30/45/59, both signs) and 0 or 3 fraction digits *)
+RandZonedDescs(seed) == {ds \in {RandTemporalDesc(seed, k) : k \in 1..NRandom} : ds.k = "dt" /\ ds.z.form # "none"}
+ProtoCases(seed) ==
+  {[kind |-> "proto-precision", id |-> "Pto:DateTime:" \o CpsId(DescText(ds)), sub |-> "to", ek |-> "DateTime", expr |-> DescText(ds)]
+     : ds \in {x \in RandZonedDescs(seed) : Len(x.f) \in {0, 3}}}
+  \cup {[kind |-> "proto-precision", id |-> "Pscalar:" \o ScalarId(el), sub |-> "fromscalar", el |-> el] : el \in ScalarElements}
   \cup {[kind |-> "proto-precision", id |-> "Pfrom:" \o ElId(el), sub |-> "from", el |-> el, canon |-> TemporalLit(SysOfEl(el))] : el \in Elements}
   \cup {[kind |-> "proto-precision", id |-> "Pto:" \o x.ek \o ":" \o CpsId(x.expr), sub |-> "to", ek |-> x.ek, expr |-> x.expr] : x \in ProtoToExprs}
 
@@ -544,8 +548,10 @@ FhirTexts ==
           f \in {<<5>>, <<2, 5>>, <<1, 2, 3, 4>>, <<1, 2, 3, 4, 5>>}, z \in {<<cZ>>, NumZoneText(120)}}
   \cup {[ek |-> "Time", text |-> TodText(6, <<10, 30, 7>>, f)] : f \in {<<5>>, <<2, 5>>, <<1, 2, 3, 4>>, <<1, 2, 3, 4, 5>>}}
 
-HelperCases ==
-  {[kind |-> "fhir-helpers", id |-> "Hfmt:" \o ElId(el), sub |-> "fmt", ek |-> el.ek, el |-> el] : el \in Elements}
+HelperCases(seed) ==
+  {[kind |-> "fhir-helpers", id |-> "Hparse:" \o ek \o ":" \o CpsId(Tail(DescText(ds))), sub |-> "parse", ek |-> ek, text |-> Tail(DescText(ds))]
+     : ek \in {"DateTime", "Instant"}, ds \in {x \in RandZonedDescs(seed) : x.tp = 6}}
+  \cup {[kind |-> "fhir-helpers", id |-> "Hfmt:" \o ElId(el), sub |-> "fmt", ek |-> el.ek, el |-> el] : el \in Elements}
   \cup {[kind |-> "fhir-helpers", id |-> "Hparse:" \o x.ek \o ":" \o CpsId(x.text), sub |-> "parse", ek |-> x.ek, text |-> x.text] : x \in FhirTexts}
 
 (* fmt:  o.s = XToString(el) (code points), o.gs = generic ToString(el), o.js = jsonformat's rendering,      *)
@@ -570,13 +576,16 @@ JHelpersParse(o) ==
   LET cs == o.cs
       r == ParseFhir(cs.ek, cs.text)
       r2 == ParseFhir(cs.ek, o.s2)
-      sameVal(a, b) == a.p = b.p /\ a.y = b.y /\ a.mo = b.mo /\ a.d = b.d /\ a.h = b.h /\ a.mi = b.mi /\ a.sec = b.sec /\ a.us = b.us /\ a.off = b.off
+      sameVal(a, b) == PClass(a.p) = PClass(b.p) /\ a.y = b.y /\ a.mo = b.mo /\ a.d = b.d /\ a.h = b.h /\ a.mi = b.mi /\ a.sec = b.sec /\ a.us = b.us /\ a.off = b.off
       elOk == /\ o.el.k = "ok" /\ o.el.y = r.y /\ o.el.mo = r.mo /\ o.el.d = r.d /\ o.el.h = r.h /\ o.el.mi = r.mi /\ o.el.sec = r.sec
               /\ (cs.ek # "Time" /\ r.p >= 6 => o.el.off = r.off)
       step == IF ~r.ok THEN "none"
               ELSE IF o.call.k # "ok" THEN "call"
               ELSE IF ~elOk THEN "parse-value"
-              ELSE IF o.el.prec # PrecOfParsed(r) THEN (IF r.fd \in {0, 3, 6} THEN "parse-precision" ELSE "parse-precision-odd-fraction")
+              ELSE IF r.fd \in {0, 3, 6} /\ o.el.prec # PrecOfParsed(r) THEN "parse-precision"
+              \* 1, 2, 4 or 5 digits: any precision that holds the fraction exactly (".0" is no fraction, ".9730" is ".973")
+              ELSE IF ~(o.el.prec = "MICROSECOND" \/ (o.el.prec = "MILLISECOND" /\ r.us % 1000 = 0) \/ (o.el.prec = "SECOND" /\ r.us = 0) \/ (r.p < 6 /\ o.el.prec = PrecOfParsed(r)))
+                THEN "parse-precision-odd-fraction"
               ELSE IF o.el.us # r.us THEN "parse-fraction"
               ELSE IF ~(r2.ok /\ sameVal(r2, r)) THEN "format-of-parse-differs"
               ELSE IF o.js2 # o.s2 THEN "differs-from-jsonformat"
@@ -665,8 +674,8 @@ CasesOf(fam, seed) ==
   CASE fam = "lit-string" -> StringCases(seed)
     [] fam = "lit-decimal" -> NumberCases(seed)
     [] fam = "lit-temporal" -> TemporalCases(seed)
-    [] fam = "proto-precision" -> ProtoCases
-    [] fam = "fhir-helpers" -> HelperCases
+    [] fam = "proto-precision" -> ProtoCases(seed)
+    [] fam = "fhir-helpers" -> HelperCases(seed)
     [] fam = "narrow" -> NarrowCases
 
 Judge(o) ==
